@@ -206,6 +206,24 @@ func SkipperSeesEveryPacket(p *load.Program, r *report.Report) {
 		}
 	}
 	if test == nil {
+		// the consultation may live in a helper that is handed the skipper parameter (its shape is rule S5/skipper-called-once)
+		for _, b := range f.Blocks {
+			for _, in := range b.Instrs {
+				c, ok := in.(*ssa.Call)
+				if !ok || c.Call.StaticCallee() == nil || c.Call.StaticCallee().Pkg != f.Pkg {
+					continue
+				}
+				for _, arg := range c.Call.Args {
+					if prm, ok := arg.(*ssa.Parameter); ok {
+						if n, ok := prm.Type().(*types.Named); ok && n.Obj().Name() == "PacketSkipper" {
+							test = b
+						}
+					}
+				}
+			}
+		}
+	}
+	if test == nil {
 		r.Unknown("S5", key, p.Pos(f.Pos()), "the test of the PacketSkipper parameter was not found")
 		return
 	}
